@@ -1,6 +1,7 @@
 /- Driver, group `rf`: Reference handles. -/
 import Rrtk.Drv.Base
 import Rrtk.Reference
+import Rrtk.RefAlias
 namespace Rrtk.Drv
 open Rrtk Rrtk.Wire
 
@@ -12,9 +13,47 @@ def pVariant (s : String) : Option RefVariant :=
 /-- the harness is a crate with features `alloc` and `std` (see harness/Cargo.toml) -/
 def harnessCallerFeats : List String := ["alloc", "std"]
 
-def runRf (_chk : Bool) (toks : List String) : M Unit := do
+/-- the builds without `std`: harness features `alloc` (+ `libm`), rrtk features `alloc` (+ `libm`) -/
+def nostdFeats : List String := ["alloc"]
+
+/-- a fault of the heap machine: a line that would touch freed memory or a dead handle is not a legal test line (the harness
+refuses it before running anything); a panic is a panic -/
+def liftH {α : Type} : Except HFault α → M α
+  | .ok a => pure a
+  | .error (.panic p) => throw (.panic p)
+  | .error _ => throw .bad
+
+/-- lines with `al:` (raw alias), `cf:` (`clone_from`) or `dm:` (`to_dyn!` of a MOVED handle) run on the heap machine
+(`Rrtk/RefHeap.lean`, `Rrtk/RefAlias.lean`); `cf` needs both handles of the same static type (both `dyn` or both concrete) -/
+def runRfHeap (nostd : Bool) (v : RefVariant) (evs : List String) : M Unit := do
+  let hasArm : RefVariant → Bool :=
+    if nostd then toDynHasArmIn nostdFeats nostdFeats else toDynHasArm harnessCallerFeats
+  let mut s := RState.init v
+  for e in evs do
+    match e.splitOn ":" with
+    | ["cl", h] => s ← liftH (s.clone (← need h.toNat?)); emit "-"
+    | ["dy", h] => s ← liftH (s.toDynCloneWith hasArm (← need h.toNat?)); emit "-"
+    | ["dm", h] => s ← liftH (s.toDynMoveWith hasArm (← need h.toNat?)); emit "-"
+    | ["al", h] => s ← liftH (s.rawAlias (← need h.toNat?)); emit "-"
+    | ["cf", i, j] =>
+      let i ← need i.toNat?; let j ← need j.toNat?
+      let hi ← liftH (s.slot i); let hj ← liftH (s.slot j)
+      if hi.isDyn != hj.isDyn then throw .bad
+      s ← liftH (s.cloneFrom i j); emit "-"
+    | ["rd", h] => emit (sIt (← liftH (s.read (← need h.toNat?))))
+    | ["wr", h, x] => s ← liftH (s.write (← need h.toNat?) (← need x.toInt?)); emit "-"
+    | ["inc", h] =>
+      let h ← need h.toNat?
+      let x ← liftH (s.read h)
+      s ← liftH (s.write h (x + 1)); emit "-"
+    | ["dr", h] => s ← liftH (s.drop (← need h.toNat?)); emit "-"
+    | ["live"] => emit (sB s.live0)
+    | _ => throw .bad
+
+def runRf (_chk : Bool) (nostd : Bool) (toks : List String) : M Unit := do
   match toks with
   | ["thr", v, n, k] =>
+    if nostd then noimpl          -- no threads, no lock variants without `std`
     let v ← need (pVariant v)
     if !(v == .arcRwLock || v == .arcMutex || v == .ptrRwLock || v == .ptrMutex) then noimpl
     let n ← need n.toNat?; let k ← need k.toNat?
@@ -22,12 +61,18 @@ def runRf (_chk : Bool) (toks : List String) : M Unit := do
     emit (sIt (n * k))
   | v :: evs =>
     let v ← need (pVariant v)
+    -- the lock variants exist only in builds with `std` (the harness answers `NOIMPL` for them otherwise)
+    if nostd && !(variantExists nostdFeats v) then noimpl
+    if evs.any (fun e => e.startsWith "al:" || e.startsWith "cf:" || e.startsWith "dm:") then
+      runRfHeap nostd v evs
+      return
     let mut c := RefCase.init v
     for e in evs do
       match e.splitOn ":" with
       | ["cl", h] => c ← need (c.clone (← need h.toNat?)); emit "-"
       | ["dy", h] =>
-        match c.toDyn harnessCallerFeats (← need h.toNat?) with
+        let h ← need h.toNat?
+        match (if nostd then c.toDynIn nostdFeats nostdFeats h else c.toDyn harnessCallerFeats h) with
         | none => throw .bad
         | some r => c ← liftP r; emit "-"
       | ["rd", h] => emit (sIt (← need (c.read (← need h.toNat?))))
